@@ -77,7 +77,7 @@ def spaces(tier, seed):
     k = -1
     for method, w in (("sad", 1), ("sad", 3), ("census", 3), ("zncc", 3), ("ssd", 1)):
         for subpix in (1, 2, 4):
-            for form in ("scalar", "grid"):
+            for form in ("scalar", "grid", "fgrid"):
                 for mask in ("none", "left", "right"):
                     for inv in (-9999, "NaN"):
                         k += 1
@@ -226,6 +226,12 @@ def run_machine(case):
     else:
         gmin = (-2 + (rr + cc) % 3).astype(np.float32)
         gmax = (gmin + (rr * 2 + cc) % 3).astype(np.float32)
+        if case["form"] == "fgrid":
+            # float grids whose bounds are no multiple of the sampling step (a prediction +/- a margin); some of
+            # the intervals hold no sample at all
+            gmin = (gmin + np.float32(0.3)).astype(np.float32)
+            gmax = (gmax + np.float32(0.7)).astype(np.float32)
+            gmax[::4, ::3] = gmin[::4, ::3] + np.float32(0.1)
         disp = (gmin, gmax)
     lm = rm = None
     if case["mask"] in ("left", "right"):
@@ -236,7 +242,7 @@ def run_machine(case):
         lm, rm = (m, None) if case["mask"] == "left" else (None, m)
     L = D.image(left, disp=disp, msk=lm)
     rdisp = None
-    if case["form"] == "grid":
+    if case["form"] != "scalar":
         rdisp = ((-gmax[:, ::-1]).astype(np.float32), (-gmin[:, ::-1]).astype(np.float32))
     R = D.image(right, disp=rdisp, msk=rm)
     steps = [("matching_cost", P.mc(case["method"], case["w"], case["subpix"]))]
@@ -253,7 +259,7 @@ def run_machine(case):
     idx = [i for i, st in enumerate(obs.steps) if st["step"] == "disparity"][0]
     before, after = obs.steps[idx - 1], obs.steps[idx]
     t = before["left_cv"].attrs["type_measure"]
-    for side, grid in (("left", (gmin, gmax)), ("right", None)):
+    for side, grid in (("left", (gmin, gmax)), ("right", rdisp)):
         cvb = before[f"{side}_cv"]
         if cvb is None or "cost_volume" not in cvb or (side == "right" and not case["val"]):
             continue
